@@ -170,7 +170,7 @@ def mon_store_immutable(steps, meta):
         if st.dump is None:
             continue
         # files of both stores, and the snapshot directories themselves (an empty snapshot is still a snapshot)
-        cur = {p: e for p, e in st.dump.items() if ((under("/k/store", p) or under("/k/projects", p)) and e[0] == "file")
+        cur = {p: e for p, e in st.dump.items() if ((under("/k/store", p) or under("/k/projects", p)) and e[0] in ("file", "link"))
                or (e[0] == "dir" and re.match(r"^/k/projects/[^/]+/[^/]+$", p))}
         if prev is not None:
             for p, e in prev.items():
@@ -179,7 +179,7 @@ def mon_store_immutable(steps, meta):
                     continue      # the scenario itself removed it (a stray file put there by the scenario)
                 if c is None:
                     return "store entry %s disappeared" % p
-                if e[0] != c[0] or (e[0] == "file" and file_sig(e) != file_sig(c)):
+                if e[0] != c[0] or (e[0] == "file" and file_sig(e) != file_sig(c)) or (e[0] == "link" and e[1] != c[1]):
                     return "store entry %s changed from %s to %s" % (p, e, c)
         prev = cur
         removed_by_env = set()
@@ -555,7 +555,9 @@ def queue_of(dump):
         for p, e in dump.items():
             if p.startswith(q + "/") and e[0] == "link":
                 m, path = decode_target(unhexs(e[1]))
-                out.append((q, int(p[len(q) + 1:]), path, m, int(e[2])))
+                name = p[len(q) + 1:]
+                # (a link whose name is not a number sorts last: mon_queue_form reports it)
+                out.append((q, int(name) if name.isdigit() else 10 ** 9, path, m, int(e[2])))
     out.sort(key=lambda x: (x[0], x[1]))
     return out
 
@@ -1204,6 +1206,40 @@ def mon_post_restart_ok(steps, meta):
     return None
 
 
+def mon_accepted_is_queued(steps, meta):
+    """C10 / C14 for write events (scenarios accept_*): 'either still completes the operation or reports an error' -
+    a qualifying write whose handling under a failing call did not report an error is in the queue: a link for the
+    written path exists afterwards"""
+    if not isinstance(meta, dict) or not str(meta.get("scenario", "")).startswith("accept_"):
+        return None
+    i, st = _disturbed(steps)
+    if st is None or st.op != "write" or st.result != "ok":
+        return None
+    pre = next((x.dump for x in reversed(steps[:i]) if x.dump is not None), None)
+    after = next((x.dump for x in steps[i + 1:] if x.dump is not None), None)
+    if pre is None or after is None:
+        return None
+    path = unhexs(st.tok[2])
+    new = [(num, p_, m) for (_, num, p_, m, mt) in queue_of(after) if (_, num, p_, m, mt) not in queue_of(pre)]
+    if not any(p_ == path for (_, p_, m) in new):
+        return ("the write of %s under a failing call (%s %s at call %s) reported no error, but no queue entry for it exists: the write is silently lost"
+                % (path[len(CANON_ROOT):], meta.get("callline"), meta.get("errno"), meta.get("k")))
+    return None
+
+
+def mon_writes_queued(steps, meta):
+    """histories in which every write qualifies (meta 'all_writes_queued': an editor writing visible, non-excluded
+    files): each write event that is handled without an error adds a link of its own to the queue - also when the
+    same file was written just before (the new link is what restarts the quiet period)"""
+    if not (isinstance(meta, dict) and meta.get("all_writes_queued")):
+        return None
+    for st in steps:
+        if st.op == "write" and st.result == "ok" and len(st.tok) > 2 and unhexs(st.tok[2]) != CANON_ROOT + "/w/cfg/klunok.lua":
+            if not any(l.split(" ")[1:2] == ["symlinkat"] for l in st.log):
+                return "the qualifying write '%s' (%s) was handled without an error but created no queue link" % (st.line, unhexs(st.tok[2])[len(CANON_ROOT):])
+    return None
+
+
 def mon_resources(steps, meta):
     """C20: with a handler loaded exactly two descriptors are open (queue directory, journal) after every
     operation, none after release"""
@@ -1225,7 +1261,7 @@ MONITORS.update({
     "queue_form": mon_queue_form, "journal": mon_journal, "faithful": mon_faithful, "history": mon_history,
     "bursts": mon_bursts, "projects": mon_projects, "recovery": mon_recovery, "no_partial": mon_no_partial,
     "fault_reported": mon_fault_reported, "resources": mon_resources, "expected_handled": mon_expected_handled,
-    "completed_exact": mon_completed_exact, "exec_completed": mon_exec_completed, "post_restart_ok": mon_post_restart_ok, "partial_snapshot": mon_partial_snapshot, "snapshot_members": mon_snapshot_members,
+    "completed_exact": mon_completed_exact, "exec_completed": mon_exec_completed, "accepted_is_queued": mon_accepted_is_queued, "writes_queued": mon_writes_queued, "post_restart_ok": mon_post_restart_ok, "partial_snapshot": mon_partial_snapshot, "snapshot_members": mon_snapshot_members,
 })
 
 
